@@ -68,6 +68,13 @@ _style = ["upper"]  # naming style of the target types: set per case (type names
 #                     package components to anything that splits dotted names by capitalisation)
 
 
+def _comp_name(pkg: str) -> str:
+    """A message named after the last component of its package (a.b -> B, a_b -> AB ... as CamelCase of the component):
+    its snake-cased name coincides with the alias under which a parent package imports that package."""
+    last = pkg.split(".")[-1]
+    return "".join(w[:1].upper() + w[1:] for w in last.split("_")) or "X"
+
+
 def defs_proto(pkg: str, idx: int) -> str:
     base = 20100 + idx * 10
     tm, tn, te, tne = STYLE[_style[0]]
@@ -80,7 +87,7 @@ message {tm}{idx} {{
   int32 mk{base} = {base};
 }}
 enum {te}{idx} {{ TE{idx}_ZERO = 0; TE{idx}_ONE = 1; TE{idx}_MK = {base + 2}; }}
-"""
+""" + (f"message {_comp_name(pkg)} {{ int32 v = 1; int32 mk{base + 6} = {base + 6}; }}\n" if pkg else "")
 
 
 def alias_names(src: str, dst: str):
@@ -134,15 +141,79 @@ def refs_proto(pkg: str, idx: int, targets, wkt: bool, sites: str = "all") -> st
                 body += f"  {kinds['msg']} {an} = {n};\n"; n += 1
         rpcs += f"  rpc Call{ti}A ({kinds['msg']}) returns ({kinds['nested']});\n"
         rpcs += f"  rpc Call{ti}B (stream {kinds['nested']}) returns (stream {kinds['msg']});\n"
+        if tp and _style[0] == "upper" and _comp_name(tp) not in (f"{tm}{ti}", "Src" + str(idx)):
+            rpcs += f"  rpc Named{ti} ({q}{_comp_name(tp)}) returns ({kinds['msg']});\n"
     if wkt:
         for j, t in enumerate([".google.protobuf.Timestamp", ".google.protobuf.Duration", ".google.protobuf.Empty", ".google.protobuf.Struct", ".google.protobuf.Int32Value"]):
             body += f"  {t} w_{j} = {n};\n"; n += 1
             body += f"  repeated {t} wr_{j} = {n};\n"; n += 1
             body += f"  map<string, {t}> wm_{j} = {n};\n"; n += 1
         rpcs += "  rpc Wk (.google.protobuf.Empty) returns (.google.protobuf.Struct);\n"
+        # the very types the fields above use (and unwrap: datetime, timedelta, Optional[int]) as rpc types of the same package
+        rpcs += "  rpc WkT (.google.protobuf.Timestamp) returns (.google.protobuf.Duration);\n"
+        rpcs += "  rpc WkW (stream .google.protobuf.Int32Value) returns (stream .google.protobuf.Timestamp);\n"
     body += oneof + "  }\n}\n"
     body += f"service Svc{idx} {{\n{rpcs}}}\n"
     return head + "".join(imports) + body
+
+
+class _Reached(Exception):
+    pass
+
+
+class _FakeChannel:
+    """Stands in for a grpclib channel: the first thing a stub method does with it tells which route and which classes
+    the CLIENT side uses."""
+
+    def request(self, route, cardinality, request_type, reply_type, **kw):
+        raise _Reached(route, cardinality, request_type, reply_type)
+
+
+def stub_dry_calls(Stub, mapping, where: str):
+    """Call every method of the generated stub up to its first use of the channel: it must get there (the names in its
+    body resolve), and the classes it hands to the channel must be the very classes the server side registers."""
+    import inspect
+
+    out = []
+    try:
+        stub = Stub(_FakeChannel())
+    except Exception as e:  # noqa: BLE001
+        return [("stub_not_constructible", type(e).__name__, f"{where}: {e}"[:300])]
+    seen_routes = set()
+    for name, fn in vars(Stub).items():
+        if name.startswith("_") or not callable(fn):
+            continue
+        try:
+            if inspect.isasyncgenfunction(fn):
+                step = getattr(stub, name)(()).__anext__()
+            elif inspect.iscoroutinefunction(fn):
+                step = getattr(stub, name)(())
+            else:
+                continue
+            try:
+                step.send(None)
+                out.append(("stub_method_never_uses_channel", "-", f"{where}.{name}"))
+            finally:
+                step.close()
+        except _Reached as r:
+            route, _card, rq, rp = r.args
+            seen_routes.add(route)
+            h = mapping.get(route)
+            if h is None:
+                out.append(("stub_route_unknown_to_server", "-", f"{where}.{name}: {route}"))
+                continue
+            if rp is not h.reply_type:
+                out.append(("stub_reply_type_differs_from_server", "-", f"{where}.{name}: stub {rp!r} server {h.reply_type!r}"))
+            if rq is not tuple and rq is not h.request_type:
+                out.append(("stub_request_type_differs_from_server", "-", f"{where}.{name}: stub {rq!r} server {h.request_type!r}"))
+        except StopIteration:
+            out.append(("stub_method_never_uses_channel", "-", f"{where}.{name}"))
+        except Exception as e:  # noqa: BLE001
+            out.append(("stub_method_raises_before_sending", type(e).__name__, f"{where}.{name}: {e}"[:300]))
+    for route in mapping:
+        if route not in seen_routes:
+            out.append(("server_route_without_stub_method", "-", f"{where}: {route}"))
+    return out
 
 
 def validate(c: gen.Compiled, src_list, wkt, sites: str = "all", pydantic: bool = False):
@@ -203,6 +274,8 @@ def validate(c: gen.Compiled, src_list, wkt, sites: str = "all", pydantic: bool 
             Stub = getattr(mod, f"Svc{si}Stub", None)
             if Stub is None:
                 out.append(("service_stub_missing", sites, f"Svc{si}Stub in {sp!r}"))
+            else:
+                out += [(cl, f"{sites}|{w}", d) for cl, w, d in stub_dry_calls(Stub, mapping, f"{sp!r} Svc{si}Stub")]
             continue
         for tp, ti in tgts:
             rel = relation(sp, tp)
@@ -263,6 +336,11 @@ def validate(c: gen.Compiled, src_list, wkt, sites: str = "all", pydantic: bool 
             out.append(("service_mapping_raises", type(e).__name__, f"{sp!r}: {e}"[:300]))
             continue
         pre = "/" + (sp + "." if sp else "") + f"Svc{si}/"
+        Stub = getattr(mod, f"Svc{si}Stub", None)
+        if Stub is None:
+            out.append(("service_stub_missing", "-", f"Svc{si}Stub in {sp!r}"))
+        else:
+            out += stub_dry_calls(Stub, mapping, f"{sp!r} Svc{si}Stub")
         for tp, ti in tgts:
             rel = relation(sp, tp)
             base = 20100 + ti * 10
@@ -290,9 +368,10 @@ def validate(c: gen.Compiled, src_list, wkt, sites: str = "all", pydantic: bool 
                         pass
                     if got is not cls:
                         out.append(("well_known_type_resolves_to_wrong_class", f"{pref}|{cls.__name__}", f"{sp!r}: {key} -> {got!r}, want {cls!r}"))
-            h = mapping.get(pre + "Wk")
-            if h is None or h.request_type is not wk.Empty or h.reply_type is not wk.Struct:
-                out.append(("well_known_rpc_type_wrong", "-", f"{pre}Wk: {h!r}"))
+            for route, rq, rp in (("Wk", wk.Empty, wk.Struct), ("WkT", wk.Timestamp, wk.Duration), ("WkW", wk.Int32Value, wk.Timestamp)):
+                h = mapping.get(pre + route)
+                if h is None or h.request_type is not rq or h.reply_type is not rp:
+                    out.append(("well_known_rpc_type_wrong", route, f"{pre}{route}: {h!r} want {rq.__name__} -> {rp.__name__}"))
     return out
 
 
